@@ -10,7 +10,9 @@ RULE = ('scenarios over <=4 descriptors (pipe read ends / socketpair ends; plain
         'ascending/descending epoll ready order) with scripted callbacks (read k bytes, remove/add self or another '
         'descriptor); directed classes: data+hang-up in one iteration, close without data, partial reads, removal of a '
         'ready descriptor by an earlier callback (both fd orders, both back-ends), remove+re-add in one iteration, '
-        'write readiness, delete_on_close, on_close removing itself; plus random scenarios. non-trivial = at least one '
+        'write readiness, delete_on_close, on_close removing itself, every sequence of <=3 own add/remove actions in the '
+        'read/write/close callback of a read+write registered socket (region of theorem c16_backends_agree; the model '
+        'output class carries +guards when the theorem\'s guards hold); plus random scenarios. non-trivial = at least one '
         'callback ran on each back-end and at least two polls; distinct = distinct model output line')
 ASSUMPTIONS = [
     'kernel readiness as in PModel.p_ep_flags/p_readable/p_writable (level triggered; pipe read end: EPOLLIN iff data, '
